@@ -207,7 +207,14 @@ pub fn gen_case(rng: &mut Rng) -> ImgCase {
         7 => Transform::translation(rng.range(-200., 200.) as f32, rng.range(-200., 200.) as f32), // far beyond every edge
         _ => Transform::scale(0.5, 0.5).then_translate(euclid::vec2(0.25, 0.25)),
     };
+    // exact mirror images with whole translations (a y-up user space, a flipped image)
+    let flip = |rng: &mut Rng, w: i32, h: i32| -> Transform {
+        let (sx, sy) = *rng.pick(&[(1.0f32, -1.0f32), (-1., 1.), (-1., -1.)]);
+        Transform::scale(sx, sy).then_translate(euclid::vec2(if sx < 0. { rng.int(1, w as i64 + 2) as f32 } else { rng.int(-2, 2) as f32 }, if sy < 0. { rng.int(1, h as i64 + 2) as f32 } else { rng.int(-2, 2) as f32 }))
+    };
+    let src_t = if rng.chance(0.04) { flip(rng, iw, ih) } else { src_t };
     let ctm = match rng.below(9) {
+        _ if rng.chance(0.04) => flip(rng, w, h),
         8 => special_transform(rng, w as f64, h as f64),
         0 | 1 | 2 | 3 => Transform::identity(),
         4 => Transform::translation(rng.int(-6, 6) as f32, rng.int(-6, 6) as f32),
@@ -232,6 +239,13 @@ pub fn gen_case(rng: &mut Rng) -> ImgCase {
     } else {
         (src_t, ctm)
     };
+    // now and then the pixel slice is longer than width x height (a view into a larger buffer): the rest is not part of the image
+    let mut data = data;
+    if rng.chance(0.05) {
+        for k in 0..rng.int(1, 2 * iw as i64 + 3) {
+            data.push(0xff00ff00 ^ (k as u32 * 0x00010305));
+        }
+    }
     ImgCase { w, h, iw, ih, data, repeat: rng.chance(0.5), bilinear: rng.chance(0.5), src_t, ctm, alpha, slack: 1. }
 }
 
